@@ -745,6 +745,97 @@ func runC11(c *Ctx) {
 	// loop that returns something else than the decoding error (nil) leaves them without their transfer-error notice
 	c.withRule("R14", func() { checkBadPacketEndsSession(c) })
 
+	// ---------- R20 the notification is delivered when there is an error ----------
+	// The function that hands an error to the objects' TransferError method gets it as a parameter; knowing that the
+	// parameter is not nil, an object must be reachable — a guard the wrong way round notifies nobody of a real error.
+	{
+		n := 0
+		for _, fn := range p.LibFuncs() {
+			if fn.Package() != p.Sftp {
+				continue
+			}
+			var inv []ssa.Instruction
+			var prm *ssa.Parameter
+			eachInstr(fn, func(in ssa.Instruction) {
+				cc := callOf(in)
+				if cc == nil || !cc.IsInvoke() || cc.Method.Name() != "TransferError" || len(cc.Args) != 1 {
+					return
+				}
+				inv = append(inv, in)
+				if q, ok := cc.Args[0].(*ssa.Parameter); ok {
+					prm = q
+				}
+			})
+			if len(inv) > 0 {
+				n++
+			}
+			if len(inv) == 0 || prm == nil || len(fn.Blocks) == 0 {
+				continue
+			}
+			seedFacts = pathFacts{prm: clsNonNil}
+			ok := reachCore(fn.Blocks[0], 0, func(in ssa.Instruction) bool {
+				cc := callOf(in)
+				return cc != nil && cc.IsInvoke() && cc.Method.Name() == "TransferError"
+			}, func(ssa.Instruction) bool { return false })
+			c.check(ok, "R20", fnName(fn)+" notifies when there is an error", p.Pos(fn.Pos()), "with a non-nil error an object's TransferError is reachable",
+				"called with an error, this function reaches no TransferError call: the objects still open at the end of a broken session are never told")
+		}
+		c.check(n >= 1, "R20", "functions delivering the transfer error", "?", fmt.Sprintf("%d", n), "no function calls TransferError")
+	}
+
+	// ---------- R21 the cancel function stays with the request the table holds ----------
+	// Request.close cancels through r.cancelCtx when it is set.  The field is cleared only on a request made in the
+	// same function (the copy WithContext returns): cleared through a parameter it is taken from the request the
+	// server keeps, and closing the handle no longer cancels the handler's context.
+	{
+		n := 0
+		for _, fn := range p.LibFuncs() {
+			if fn.Package() != p.Sftp {
+				continue
+			}
+			eachInstr(fn, func(in ssa.Instruction) {
+				st, ok := in.(*ssa.Store)
+				if !ok || !isNilConst(st.Val) {
+					return
+				}
+				fa, ok := st.Addr.(*ssa.FieldAddr)
+				if !ok {
+					return
+				}
+				if _, nm, _, _ := fieldOf(fa); nm != "cancelCtx" {
+					return
+				}
+				n++
+				viaParam := false
+				// a function that itself cancels (close, after the call) may forget the function it has used
+				cancels := false
+				eachInstr(outermost(fn), func(y ssa.Instruction) {
+					if cc := callOf(y); cc != nil && !cc.IsInvoke() {
+						for _, l := range leavesOf(cc.Value) {
+							if l.Kind == leafFieldLoad && l.Field == "cancelCtx" {
+								cancels = true
+							}
+						}
+					}
+				})
+				if cancels {
+					return
+				}
+				for _, l := range leavesOf(fa.X) {
+					if _, ok := l.V.(*ssa.Parameter); ok {
+						viaParam = true
+					}
+					if _, ok := l.V.(*ssa.FreeVar); ok {
+						viaParam = true
+					}
+				}
+				c.check(!viaParam, "R21", fnName(fn)+" clears cancelCtx only on its own copy", p.Pos(in.Pos()), "the request cleared was made here",
+					"the cancel function is cleared on a request this function was given: the request in the handle table loses it and closing the handle leaves the handler's context alive")
+			})
+		}
+		c.okT("R21", "stores of nil to cancelCtx examined", "?", fmt.Sprintf("%d", n))
+	}
+
 	// ---------- R8 transfer error, contexts ----------
 	{
 		te := p.Func("(*Request).transferError")
